@@ -112,13 +112,92 @@ def check_one(ctx, res, seed, st, samples, distinct):
                 ctx.known_class(cls, "%s <- %s" % (C.rust_ty(t), text[:100]), data)
             else:
                 viol.append(data)
+    # the Deserialize model (Spec/SerdeDe.v, the subject of C02_member_is_accepted) against the real serde_json::from_str, on the
+    # witnesses and on near-miss mutants of them, for the types inside the closed plain sub-environment of the corpus
+    de_breaks = de_correspondence(ctx, res, by, qs, items, dd, st)
     viol.sort(key=lambda d: len(d["witness"]))
     for v in viol[:3]:
         ctx.fail(v["what"], v)
+    if de_breaks and not viol:
+        ctx.fail("the Deserialize model and serde_json::from_str disagree (correspondence)", dict(
+            kind="correspondence-broken", broken="Corr/*_de*.v: Spec/SerdeDe.v vs the real serde_json::from_str", first=de_breaks[0], all=de_breaks[:20], count=len(de_breaks), seed=seed),
+            no_input=True)
     if mism and not viol:
         ctx.fail("model and implementation disagree on generated text (correspondence)", dict(
             kind="correspondence-broken", broken="Corr/corpus_env: Model/Gen.v vs the derive's real output", first=mism[0], count=len(mism), seed=seed),
             no_input=True)
+
+
+def mutants(text):
+    """near-miss mutants of a JSON text: a key dropped, a key renamed, an element dropped / added, a string changed, null"""
+    import json as J
+    try:
+        j = J.loads(text, object_pairs_hook=lambda p: p)
+    except ValueError:
+        return []
+
+    def dump(x):
+        if isinstance(x, list) and x and all(isinstance(e, tuple) and len(e) == 2 and isinstance(e[0], str) for e in x):
+            return "{" + ",".join(J.dumps(k, ensure_ascii=False) + ":" + dump(v) for k, v in x) + "}"
+        if isinstance(x, list):
+            if x == []:
+                return "[]"
+            return "[" + ",".join(dump(e) for e in x) + "]"
+        return J.dumps(x, ensure_ascii=False)
+    out = []
+    is_obj = isinstance(j, list) and j and all(isinstance(e, tuple) for e in j)
+    if is_obj:
+        for k in range(min(len(j), 3)):
+            out.append(dump(j[:k] + j[k + 1:]))                                   # a key dropped
+            out.append(dump(j[:k] + [(j[k][0] + "_x", j[k][1])] + j[k + 1:]))     # a key renamed
+            if isinstance(j[k][1], str):
+                out.append(dump(j[:k] + [(j[k][0], j[k][1] + "zz")] + j[k + 1:]))  # a string (a tag) changed
+        out.append(dump(j + [("extra_key", None)]))                               # an unknown key added
+    elif isinstance(j, list):
+        out.append(dump(j[:-1]) if j else "[null]")
+        out.append(dump(j + [None]))
+    elif isinstance(j, str):
+        out.append(J.dumps(j + "zz", ensure_ascii=False))
+    out.append("null")
+    return [m for m in dict.fromkeys(out) if m != text]
+
+
+def de_correspondence(ctx, res, by, qs, items, dd, st):
+    okb, outb = vlib.coq_make(["theories/Proofs/Sem_derive_proofs.vo", "theories/Spec/SerdeDe.vo"])
+    if not okb:
+        raise vlib.HarnessError("Sem_derive_proofs / SerdeDe do not build: " + outb[-2000:])
+    if "plain_idents" not in res:
+        S.theorem_scope(res)
+    plain = res.get("plain_idents", set())
+
+    def in_scope(t):
+        named = CR.referenced(t, set())
+        return all(i in plain for i in named) and all(d["ident"] in plain for d in reach(by, t))
+    scope = [(qi, k, text) for qi, k, text in items if in_scope(qs[qi]) and not CR.big_array(qs[qi])]
+    probes, seen = [], set()
+    for qi, k, text in scope:
+        for m in mutants(text)[:4]:
+            if (qi, m) not in seen and not dup_keys(S.parse_json(m)):
+                seen.add((qi, m))
+                probes.append((qi, 100000 + len(probes), m))
+    probes = probes[:600 if ctx.quick else 6000]
+    dp = S.deserialize(res, probes) if probes else {}
+    allc = [(qi, text, dd.get((qi, k))) for qi, k, text in scope] + [(qi, text, dp.get((qi, k))) for qi, k, text in probes]
+    allc = [c for c in allc if c[2] is not None]
+    model = S.de_model(res, [(qi, text) for qi, text, _ in allc])
+    breaks = []
+    st["de_model_cases"] = st.get("de_model_cases", 0) + len(allc)
+    for (qi, text, real), m in zip(allc, model):
+        acc_real = not real.startswith("\x00")
+        acc_model = m.startswith("A")
+        st["de_" + ("accepted" if acc_real else "rejected")] = st.get("de_" + ("accepted" if acc_real else "rejected"), 0) + 1
+        if acc_real != acc_model:
+            breaks.append(dict(type=C.rust_ty(qs[qi]), json=text, real=real.replace("\x00", "rejected: "), model=m[:200]))
+        elif acc_real and m[1:] != real and "." not in real and "e" not in real.lower().replace("true", "").replace("false", "").replace("null", ""):
+            st["de_reserialised_text_differs"] = st.get("de_reserialised_text_differs", 0) + 1
+            if len(breaks) < 50:
+                breaks.append(dict(type=C.rust_ty(qs[qi]), json=text, real=real, model=m[:300], what="re-serialised text differs"))
+    return breaks
 
 
 def has_leaf(t, names):
